@@ -1,13 +1,129 @@
 /-
-C06: the generated schema has the classes, attributes and attribute kinds the request-composition code relies on
-(`ReqWF`), by kernel evaluation.  Re-checked whenever `Generated/Schema.lean` changes.
+C06 on the generated schema and the real converters.
+
+* `schema_reqWF`            — the generated schema has the classes, attributes and attribute kinds the request-composition
+                              code relies on (`ReqWF`), by kernel evaluation; re-checked whenever `Generated/Schema.lean`
+                              changes.
+* `C06_compose_generated`   — `C06_compose` instantiated: schema = generated, converters = `Ofx.Types.conv`, guard
+                              `EntityFree` on every caller-supplied text.
+* `C06_compose_full(_false)`— without the guard the statement is false: password `&amp;` is sent as `&`
+                              (`String.convert` unescapes at construction) — known finding string-entity-unescaped.
+* `C06_tax_full(_false)`    — `request_tax1099(acctnum="777")` never places the account number — known finding
+                              tax1099-acctnum-dropped.  (`C06_tax_acctnum_ignored` in Props/C06.lean is the general fact.)
 -/
-import OfxProofs.Lemmas.Compose
+import OfxProofs.Props.C06
+import OfxProofs.Lemmas.Str
 import OfxModel.Generated.Schema
 
 namespace Ofx.Gen
-open Ofx Ofx.Compose
+open Ofx Ofx.Compose Ofx.Spec.Request Ofx.C06
 
 theorem schema_reqWF : ReqWF Ofx.Generated.schema = true := by decide +kernel
+
+/-- **C06_compose** for the code as generated from /repo -/
+theorem C06_compose_generated (cfg : Cfg) (password : Str) (reqs : List Req) (uuidStream : Nat → Str)
+    (dtclient : DT) (htexts : ∀ s ∈ cfg.texts, EntityFree s) (hpw : EntityFree password)
+    (hreqs : ∀ r ∈ reqs, ∀ s ∈ r.texts, EntityFree s)
+    (huuid : ∀ i j, uuidStream i = uuidStream j → i = j) (hne : ∀ i, uuidStream i ≠ [])
+    (huP : ∀ i, EntityFree (uuidStream i)) {root : Node}
+    (h : requestStatements Ofx.Generated.schema Types.conv cfg password reqs uuidStream dtclient = .ok root) :
+    RequestSpec Ofx.Generated.schema cfg password dtclient reqs (Int.ofNat cfg.version) root :=
+  C06_compose schema_reqWF conv_ok cfg password reqs uuidStream dtclient htexts hpw hreqs huuid hne huP h
+
+/-- likewise the account-info request -/
+theorem C06_accounts_generated (cfg : Cfg) (password : Str) (dtacctup : Option DT) (uuidStream : Nat → Str)
+    (dtclient : DT) (htexts : ∀ s ∈ cfg.texts, EntityFree s) (hpw : EntityFree password)
+    (hu : EntityFree (uuidStream 0)) (hne : uuidStream 0 ≠ []) {root : Node}
+    (h : requestAccounts Ofx.Generated.schema Types.conv cfg password dtacctup uuidStream dtclient = .ok root) :
+    checkAccounts Ofx.Generated.schema cfg password dtclient dtacctup (Int.ofNat cfg.version) root = [] :=
+  C06_accounts schema_reqWF conv_ok cfg password dtacctup uuidStream dtclient htexts hpw hu hne h
+
+/-- likewise the profile request -/
+theorem C06_profile_generated (cfg : Cfg) (dtprofup : Option DT) (uuidStream : Nat → Str)
+    (dtclient : DT) (htexts : ∀ s ∈ cfg.texts, EntityFree s)
+    (hu : EntityFree (uuidStream 0)) (hne : uuidStream 0 ≠ []) {root : Node}
+    (h : requestProfile Ofx.Generated.schema Types.conv cfg dtprofup uuidStream dtclient = .ok root) :
+    checkProfile Ofx.Generated.schema cfg dtclient dtprofup none (Int.ofNat cfg.version) root = [] :=
+  C06_profile schema_reqWF conv_ok cfg dtprofup uuidStream dtclient htexts (by decide +kernel) (by decide +kernel)
+    hu hne h
+
+/-! ### witnesses -/
+
+def wUuid (i : Nat) : Str := List.replicate (i + 1) 'u'
+
+theorem wUuid_inj : ∀ i j, wUuid i = wUuid j → i = j := by
+  intro i j h
+  have := congrArg List.length h
+  simpa [wUuid] using this
+
+def wDt : DT := ⟨2020, 1, 2, 3, 4, 5, 0, some ⟨0, some "UTC".toList⟩⟩
+
+def wCfg : Cfg :=
+  { url := [], userid := "user".toList, clientuid := none, org := none, fid := none, version := 203,
+    appid := "QWIN".toList, appver := "2700".toList, language := "ENG".toList, prettyprint := false,
+    closeElements := true, bankid := none, brokerid := none }
+
+/-- the full-strength statement: `C06_compose_generated` without the `EntityFree` guard on the caller's texts -/
+def C06_compose_full : Prop :=
+  ∀ (cfg : Cfg) (password : Str) (reqs : List Req) (uuidStream : Nat → Str) (dtclient : DT) (root : Node),
+    (∀ i j, uuidStream i = uuidStream j → i = j) → (∀ i, uuidStream i ≠ []) → (∀ i, EntityFree (uuidStream i)) →
+    requestStatements Ofx.Generated.schema Types.conv cfg password reqs uuidStream dtclient = .ok root →
+    RequestSpec Ofx.Generated.schema cfg password dtclient reqs (Int.ofNat cfg.version) root
+
+/-- password `&amp;`: the request composes, and exactly the clause `signon.userpass` fails -/
+theorem entity_witness :
+    (match requestStatements Ofx.Generated.schema Types.conv wCfg "&amp;".toList [] wUuid wDt with
+      | .ok root => decide (check Ofx.Generated.schema wCfg "&amp;".toList wDt [] 203 root = ["signon.userpass"])
+      | .error _ => false) = true := by decide +kernel
+
+theorem C06_compose_full_false : ¬ C06_compose_full := by
+  intro hfull
+  have hw := entity_witness
+  cases hr : requestStatements Ofx.Generated.schema Types.conv wCfg "&amp;".toList [] wUuid wDt with
+  | error e => rw [hr] at hw; simp at hw
+  | ok root =>
+    rw [hr] at hw
+    simp only [decide_eq_true_eq] at hw
+    have := hfull wCfg "&amp;".toList [] wUuid wDt root wUuid_inj (by intro i; simp [wUuid])
+      (by intro i; exact unescape_no_amp _ (by simp [wUuid, List.mem_replicate])) hr
+    simp only [RequestSpec] at this
+    rw [show (Int.ofNat wCfg.version) = 203 from rfl, hw] at this
+    cases this
+
+/-- the full-strength statement for the tax request -/
+def C06_tax_full : Prop :=
+  ∀ (cfg : Cfg) (password : Str) (taxyears : List Str) (acctnum recid : Option Str) (uuidStream : Nat → Str)
+    (dtclient : DT) (root : Node),
+    requestTax Ofx.Generated.schema Types.conv cfg password taxyears acctnum recid uuidStream dtclient = .ok root →
+    checkTax Ofx.Generated.schema cfg password dtclient taxyears acctnum recid (Int.ofNat cfg.version) root = []
+
+/-- `request_tax1099("pw", "2019", acctnum="777")`: composes, and exactly the wrapper clause fails (no ACCTNUM) -/
+theorem tax_witness :
+    (match requestTax Ofx.Generated.schema Types.conv wCfg "pw".toList ["2019".toList] (some "777".toList) none
+        wUuid wDt with
+      | .ok root => decide (checkTax Ofx.Generated.schema wCfg "pw".toList wDt ["2019".toList] (some "777".toList)
+          none 203 root = ["wrappers.TAX1099TRNRQ"])
+      | .error _ => false) = true := by decide +kernel
+
+theorem C06_tax_full_false : ¬ C06_tax_full := by
+  intro hfull
+  have hw := tax_witness
+  cases hr : requestTax Ofx.Generated.schema Types.conv wCfg "pw".toList ["2019".toList] (some "777".toList) none
+      wUuid wDt with
+  | error e => rw [hr] at hw; simp at hw
+  | ok root =>
+    rw [hr] at hw
+    simp only [decide_eq_true_eq] at hw
+    have := hfull wCfg "pw".toList ["2019".toList] (some "777".toList) none wUuid wDt root hr
+    rw [show (Int.ofNat wCfg.version) = 203 from rfl, hw] at this
+    cases this
+
+/-- with no account number asked for, the same witness request satisfies the whole tax spec (the general statement
+    for the tax request is `C06_tax_acctnum_ignored`; the positive general theorem is not proved: `TAX1099RQ` is an
+    `ElementList`) -/
+theorem C06_tax_partial_witness :
+    (match requestTax Ofx.Generated.schema Types.conv wCfg "pw".toList ["2019".toList] none none wUuid wDt with
+      | .ok root => decide (checkTax Ofx.Generated.schema wCfg "pw".toList wDt ["2019".toList] none none 203 root = [])
+      | .error _ => false) = true := by decide +kernel
 
 end Ofx.Gen
